@@ -255,3 +255,12 @@ func (eng *Engine) needTime() {
 	}
 	eng.ufuns["time.inst"] = &UFun{Name: "time.inst", Args: []string{ts}, Ret: "Int"}
 }
+
+func (eng *Engine) needFieldAddr() {
+	if _, ok := eng.ufuns["addr.field"]; ok {
+		return
+	}
+	eng.ufuns["addr.field"] = &UFun{Name: "addr.field", Args: []string{"Int", "Int"}, Ret: "Int"}
+	eng.axioms = append(eng.axioms, "(forall ((b Int) (k Int)) (! (> (addr.field b k) 0) :pattern ((addr.field b k))))")
+	eng.axioms = append(eng.axioms, "(forall ((b1 Int) (k1 Int) (b2 Int) (k2 Int)) (! (=> (= (addr.field b1 k1) (addr.field b2 k2)) (and (= b1 b2) (= k1 k2))) :pattern ((addr.field b1 k1) (addr.field b2 k2))))")
+}
